@@ -759,6 +759,48 @@ class C20(Check):
                         reqs.add(line, cb)
             except Exception as e:
                 fail("tank_capacity-exception", "tank_capacity raised %s: %s" % (type(e).__name__, e), {"call": "tank_capacity"})
+            # a history: evaluate, re-survey the tank (new points of the SAME curve, or another curve), evaluate again --
+            # the metric must follow the tank's current volume curve
+            ctanks = [tk for tk in spec["tanks"] if tk["curve"]]
+            if ctanks:
+                try:
+                    wn2 = build(spec)
+                    lv2 = pd.DataFrame({tk["name"]: [rnd(0, 14) for _ in times] for tk in spec["tanks"]}, index=times)
+                    wntr.metrics.tank_capacity(lv2, wn2)  # first evaluation
+                    newc = {}
+                    for tk in ctanks:
+                        v = 0.0
+                        pts = []
+                        for i, (x, _) in enumerate(tk["curve"]):
+                            if i:
+                                v += (x - tk["curve"][i - 1][0]) * rng.uniform(20, 900)
+                            pts.append([x, round(v, 3)])
+                        newc[tk["name"]] = pts
+                        cname = "VC_" + tk["name"]
+                        if rng.random() < 0.6:
+                            wn2.get_curve(cname).points = [tuple(q) for q in pts]
+                            how = "points of the curve edited"
+                        else:
+                            wn2.add_curve(cname + "b", "VOLUME", [tuple(q) for q in pts])
+                            wn2.get_node(tk["name"]).vol_curve_name = cname + "b"
+                            how = "tank re-pointed to another curve"
+                    tc2 = wntr.metrics.tank_capacity(lv2, wn2)
+                    for tk in ctanks:
+                        for tt in times:
+                            impl = float(tc2.loc[tt, tk["name"]])
+                            line = "tankcap curve %s %s %s" % (fs(tk["max"]), fs(lv2.loc[tt, tk["name"]]), ",".join("%s:%s" % (fs(x), fs(y)) for x, y in newc[tk["name"]]))
+
+                            def cb(o, impl=impl, tk=tk, tt=tt, pts=newc[tk["name"]], how=how):
+                                ctx.case(("tankcap2", sid, tk["name"], tt), True)
+                                ctx.count("tank_capacity_after_curve_change")
+                                if not close(impl, parse_rat(o)):
+                                    fail("tank_capacity-stale-curve", "tank_capacity[%s][t=%d] = %r after a first evaluation and then: %s; volume(level)/volume(max_level) on the CURRENT curve = %s"
+                                         % (tk["name"], tt, impl, how, o),
+                                         {"call": "tank_capacity twice", "tank": tk, "new_curve": pts, "level": float(lv2.loc[tt, tk["name"]]), "observed": impl, "expected": o})
+
+                            reqs.add(line, cb)
+                except Exception as e:
+                    fail("tank_capacity-exception", "tank_capacity (second evaluation) raised %s: %s" % (type(e).__name__, e), {"call": "tank_capacity twice"})
         # water service availability
         try:
             exp = pd.DataFrame({n: [rnd(0, 0.03) if rng.random() < 0.8 else 0.0 for _ in times] for n in jn}, index=times)
